@@ -162,3 +162,152 @@ Proof.
   setoid_replace (inject_Z z + 1)%Q with (inject_Z (z + 1)) in L2 by (rewrite inject_Z_plus; reflexivity).
   unfold Qlt in L2. cbn in L2. nia.
 Qed.
+
+(* ------------------------------------------------------------------ reference closure of whole drawings *)
+Lemma incl_flat_map {A B} (f : A -> list B) (l1 l2 : list A) : incl l1 l2 -> incl (flat_map f l1) (flat_map f l2).
+Proof.
+  intros H y Hy. apply in_flat_map in Hy as [x [Hx Hy]]. apply in_flat_map. exists x. split; [now apply H|assumption].
+Qed.
+
+Section Closure.
+  Variable T : tables.
+
+  (* the deco cache is closed under declared dependencies *)
+  Definition cache_closed (c : list str) : Prop := forall n, In n c -> incl (row_deps T n) c.
+
+  Definition dstep (f : nat) : option (list str) -> str -> option (list str) :=
+    fun c d => match c with
+               | None => None
+               | Some c => if mem_str d c then Some c else add_deco f T d c
+               end.
+  Lemma dstep_none f ds : fold_left (dstep f) ds None = None.
+  Proof. induction ds; [reflexivity|assumption]. Qed.
+
+  Definition deco_ok (f : nat) : Prop := forall name c c',
+    add_deco f T name c = Some c' -> cache_closed c -> cache_closed c' /\ incl c c' /\ In name c'.
+
+  Lemma dstep_fold f : deco_ok f -> forall ds c c1,
+    fold_left (dstep f) ds (Some c) = Some c1 -> cache_closed c ->
+    cache_closed c1 /\ incl c c1 /\ incl ds c1.
+  Proof.
+    intros IHf. induction ds as [|d ds IH]; intros c c1 H Hc; cbn [fold_left] in H.
+    - injection H as <-. repeat split; [assumption|apply incl_refl|intros x []].
+    - unfold dstep at 2 in H. destruct (mem_str d c) eqn:E.
+      + destruct (IH c c1 H Hc) as [H1 [H2 H3]]. repeat split; try assumption.
+        intros x [<-|Hx]; [apply H2; now apply mem_str_In|now apply H3].
+      + destruct (add_deco f T d c) as [c2|] eqn:E2; [|now rewrite dstep_none in H].
+        destruct (IHf d c c2 E2 Hc) as [K1 [K2 K3]].
+        destruct (IH c2 c1 H K1) as [H1 [H2 H3]]. repeat split; try assumption.
+        * eapply incl_tran; eassumption.
+        * intros x [<-|Hx]; [now apply H2|now apply H3].
+  Qed.
+
+  Lemma add_deco_ok : forall f, deco_ok f.
+  Proof.
+    induction f as [|f IHf]; intros name c c' H Hc; cbn [add_deco] in H; [discriminate|].
+    destruct (sym_row T name) as [r|] eqn:Er; [|discriminate].
+    change (fold_left _ (sy_deps r) (Some c)) with (fold_left (dstep f) (sy_deps r) (Some c)) in H.
+    destruct (fold_left (dstep f) (sy_deps r) (Some c)) as [c1|] eqn:Ef; [|discriminate].
+    injection H as <-. destruct (dstep_fold f IHf _ _ _ Ef Hc) as [H1 [H2 H3]]. repeat split.
+    - intros n Hn. apply in_app_or in Hn as [Hn|[<-|[]]].
+      + apply incl_appl. now apply H1.
+      + unfold row_deps. rewrite Er. now apply incl_appl.
+    - now apply incl_appl.
+    - apply in_or_app. right. now left.
+  Qed.
+
+  Lemma need_deco_ok c n c' : need_deco T (Some c) n = Some c' -> cache_closed c ->
+    cache_closed c' /\ incl c c' /\ In n c'.
+  Proof.
+    unfold need_deco. destruct (mem_str n c) eqn:E.
+    - intro H. injection H as <-. intro Hc. repeat split; [assumption|apply incl_refl|now apply mem_str_In].
+    - apply add_deco_ok.
+  Qed.
+  Lemma need_none ns : fold_left (need_deco T) ns None = None.
+  Proof. induction ns; [reflexivity|assumption]. Qed.
+  Lemma need_fold : forall ns c c', fold_left (need_deco T) ns (Some c) = Some c' -> cache_closed c ->
+    cache_closed c' /\ incl c c' /\ incl ns c'.
+  Proof.
+    induction ns as [|n ns IH]; intros c c' H Hc; cbn [fold_left] in H.
+    - injection H as <-. repeat split; [assumption|apply incl_refl|intros x []].
+    - destruct (need_deco T (Some c) n) as [c1|] eqn:E; [|now rewrite need_none in H].
+      destruct (need_deco_ok _ _ _ E Hc) as [K1 [K2 K3]]. destruct (IH _ _ H K1) as [H1 [H2 H3]].
+      repeat split; [assumption|eapply incl_tran; eassumption|].
+      intros x [<-|Hx]; [now apply H2|now apply H3].
+  Qed.
+
+  (* every symbol (registered or the Error fallback): references inside it are ids inside it or inside
+     a declared dependency *)
+  Definition tab_closed : Prop :=
+    forall n, incl (row_refs T n) (row_ids T n ++ flat_map (row_ids T) (row_deps T n)).
+  (* what one object writes refers only to gradients / markers it deploys itself and to the symbols it requests *)
+  Definition obj_closed (dc : str) (o : jobj) : bool :=
+    match draw1 T dc o with
+    | Some d => subset_str (dr_refs d) (dr_defs d ++ flat_map (row_ids T) (dr_syms d))
+    | None => false
+    end.
+
+  Definition inv (st : dstate) : Prop :=
+    cache_closed (d_cache st) /\ incl (d_refs st) (d_defs st ++ flat_map (row_ids T) (d_cache st)).
+
+  Lemma draw_obj_inv dc st o st' : draw_obj T dc st o = Some st' -> obj_closed dc o = true -> inv st -> inv st'.
+  Proof.
+    unfold draw_obj, place, obj_closed. destruct (draw1 T dc o) as [d|]; [|discriminate].
+    destruct (fold_left (need_deco T) (dr_syms d) (Some (d_cache st))) as [c'|] eqn:E; [|discriminate].
+    intros H Ho [I1 I2]. injection H as <-. cbn [d_cache d_refs d_defs].
+    destruct (need_fold _ _ _ E I1) as [H1 [H2 H3]]. apply subset_str_incl in Ho. split; [assumption|].
+    apply incl_app.
+    - intros x Hx. apply I2 in Hx. apply in_app_or in Hx as [Hx|Hx].
+      + apply in_or_app. left. apply in_or_app. now left.
+      + apply in_or_app. right. exact (incl_flat_map (row_ids T) _ _ H2 x Hx).
+    - intros x Hx. apply Ho in Hx. apply in_app_or in Hx as [Hx|Hx].
+      + apply in_or_app. left. apply in_or_app. now right.
+      + apply in_or_app. right. exact (incl_flat_map (row_ids T) _ _ H3 x Hx).
+  Qed.
+
+  Lemma draw_all_inv dc : forall objs st st',
+    fold_left (fun st o => match st with None => None | Some st => draw_obj T dc st o end) objs (Some st) = Some st' ->
+    forallb (obj_closed dc) objs = true -> inv st -> inv st'.
+  Proof.
+    induction objs as [|o r IH]; intros st st' H Ho Hi; cbn in H.
+    - now injection H as <-.
+    - cbn in Ho. apply andb_true_iff in Ho as [Ho1 Ho2].
+      destruct (draw_obj T dc st o) as [st1|] eqn:E; [|now rewrite fold_none in H].
+      eapply IH; [eassumption|assumption|]. eapply draw_obj_inv; eassumption.
+  Qed.
+
+  (* whole drawings, any number of elements in any order *)
+  Theorem draw_all_closed dc objs st :
+    tab_closed -> forallb (obj_closed dc) objs = true -> draw_all T dc objs = Some st ->
+    incl (doc_refs T st) (doc_defs T st).
+  Proof.
+    intros Ht Ho H. assert (inv st) as [I1 I2].
+    { eapply draw_all_inv; [exact H|exact Ho|]. split; [intros n []|intros x []]. }
+    unfold doc_refs, doc_defs. apply incl_app; [exact I2|].
+    intros x Hx. apply in_flat_map in Hx as [n [Hn Hx]]. apply Ht in Hx. apply in_or_app. right.
+    apply in_app_or in Hx as [Hx|Hx].
+    - apply in_flat_map. now exists n.
+    - exact (incl_flat_map (row_ids T) _ _ (I1 n Hn) x Hx).
+  Qed.
+
+  (* the per-object condition does not look at the id or the context of the object *)
+  Lemma obj_closed_ext dc o o' :
+    o_kind o = o_kind o' -> o_class o = o_class o' -> o_over o = o_over o' -> o_label o = o_label o' ->
+    o_nfloat o = o_nfloat o' -> o_nfeat o = o_nfeat o' -> obj_closed dc o = obj_closed dc o'.
+  Proof.
+    destruct o, o'; cbn. intros -> -> -> -> -> ->. reflexivity.
+  Qed.
+
+  (* the table condition follows from the per-row check *)
+  Definition row_local_closedP (r : symbol_row) : bool :=
+    subset_str (sy_refs r) (sy_ids r ++ flat_map (row_ids T) (sy_deps r)).
+  Lemma tab_closed_from_rows : forallb row_local_closedP (t_symbols T) = true -> tab_closed.
+  Proof.
+    intros H n. unfold row_refs, row_ids at 1, row_deps. destruct (sym_row T n) as [r|] eqn:E; [|intros x []].
+    assert (In r (t_symbols T)) as Hr.
+    { unfold sym_row in E. destruct (find_symbol T n) as [r'|] eqn:E1.
+      - injection E as <-. unfold find_symbol in E1. now apply find_some in E1.
+      - unfold find_symbol in E. now apply find_some in E. }
+    rewrite forallb_forall in H. specialize (H r Hr). now apply subset_str_incl.
+  Qed.
+End Closure.
